@@ -23,6 +23,11 @@ def ev(e, env, calls=None):
     if d is not None:
         if d in env:
             return env[d]
+        lookup = getattr(env, "lookup", None)
+        if lookup is not None:
+            found, val = lookup(e)
+            if found:
+                return val
         if d in ("None", "True", "False"):
             return {"None": None, "True": True, "False": False}[d]
         raise CannotEval("name %s" % d)
@@ -67,8 +72,24 @@ def ev(e, env, calls=None):
             raise CannotEval("arithmetic raises TypeError")
     if isinstance(e, ast.Tuple):
         return tuple(ev(x, env, calls) for x in e.elts)
+    if isinstance(e, ast.Subscript):
+        base = ev(e.value, env, calls)
+        idx = ev(e.slice, env, calls)
+        try:
+            return base[idx]
+        except (KeyError, IndexError, TypeError):
+            raise CannotEval("subscript fails")
     if isinstance(e, ast.Call):
         d = A.call_name(e)
+        hook = calls.get("*")
+        if hook is not None:
+            handled, val = hook(e)
+            if handled:
+                return val
+        if isinstance(e.func, ast.Attribute) and e.func.attr == "get" and 1 <= len(e.args) <= 2:
+            base = ev(e.func.value, env, calls)
+            if isinstance(base, dict):
+                return base.get(*[ev(a, env, calls) for a in e.args])
         args = [ev(a, env, calls) for a in e.args]
         if d in calls:
             return calls[d](*args)
